@@ -85,6 +85,9 @@ func OwnedBy(m Mismatch, a map[string]any, prop string) bool {
 	if strings.HasPrefix(m.Kind, "framer") && (prop == "C10" || (prop == "C09" && m.Kind == "framer.spin")) {
 		return true
 	}
+	if m.Kind == "codec" && prop == "C11" {
+		return true
+	}
 	if m.Kind == "ltcred" && prop == "C17" {
 		return true
 	}
